@@ -27,7 +27,7 @@ SS = [0, 1, 2, 3, 4, 5]       # 444 422 420 GRAY 440 411
 TJXOP = list(range(8))
 
 
-def gen_thread(rng, tid, nops, big):
+def gen_thread(rng, tid, nops, big, avoid=()):
     """one thread's operation list (strings); only its own handles/slots"""
     ops = []
     lim = 160 if big else 48
@@ -47,10 +47,9 @@ def gen_thread(rng, tid, nops, big):
     # Slots holding a 12-bit lossy 4:2:0 JPEG: decoding those with merged upsampling (FASTUPSAMPLE) and a scaling
     # factor that gives an odd output height hits the sequential defect reported in design/C15.md (Findings:
     # uninitialised luma row -> range_limit[] overrun in h2v2_merged_upsample).  The random stream steers around
-    # it (VERIF_C15_NO_AVOID=1 disables this) so that the check explores everything else; the deterministic
-    # repro is corpus/C15/merged12_odd_height.pending.
+    # it -- only while the deterministic repro corpus/C15/merged12_odd_height.pending still fails on the tree
+    # under test (see pending_findings) -- so that the check explores everything else.
     risky = set()
-    avoid = not os.environ.get("VERIF_C15_NO_AVOID")
     for k in range(nops):
         r = rng.below(100)
         if r < 22:
@@ -71,7 +70,7 @@ def gen_thread(rng, tid, nops, big):
                 risky.discard(slot)
         elif r < 40:
             slot, dfl = rng.below(4), rng.below(8)
-            if avoid and slot in risky:
+            if "merged12_odd_height" in avoid and slot in risky:
                 dfl &= ~1
             ops.append("decomp %d %d %d %d %d" % (rng.choice([1, 1, 2]), slot, rng.choice(PF), rng.below(16), dfl))
         elif r < 48:
@@ -94,8 +93,11 @@ def gen_thread(rng, tid, nops, big):
             ops.append("trunc 1 %d %d %d" % (rng.below(4), rng.below(100), rng.choice(PF_RGBLIKE)))
         elif r < 80:
             ops.append("badarg %d %d" % (rng.below(3), rng.below(4)))
-        elif r < 84:
+        elif r < 82:
             ops.append("geterr %d" % rng.below(3))
+        elif r < 84:
+            # cross-instance ownership query (not generated while the pending finding errstr_two_instances still fails)
+            ops.append(("geterr %d" if "errstr_two_instances" in avoid else "ownerr %d") % rng.below(3))
         elif r < 87:
             ops.append("gerr")
         elif r < 93:
@@ -113,11 +115,58 @@ def gen_thread(rng, tid, nops, big):
     return ["%d %s" % (tid, o) for o in ops]
 
 
-def gen_program(rng, nthreads, nops, big):
+def gen_program(rng, nthreads, nops, big, avoid=()):
     lines = []
     for t in range(nthreads):
-        lines += gen_thread(rng.fork(), t, nops, big)
+        lines += gen_thread(rng.fork(), t, nops, big, avoid)
     return lines
+
+
+def pending_findings(ctx):
+    """corpus/C15/*.pending: deterministic single-thread repros of defects reported to the lead (design/C15.md,
+    Findings) and not decided yet.  Each is replayed under ASan on every run.  Still failing + listed in
+    KNOWN_FINDINGS.txt (or VERIF_C15_REPORT_PENDING=1) -> reported as a violation (a listed one shows as
+    KNOWN-FINDING); still failing + not listed -> recorded in the evidence notes only (hard rule: never alarm on the
+    unchanged tree before the lead has decided); passing -> fixed: the random stream stops steering around it.
+    Returns the set of names that still fail."""
+    cdir = os.path.join(core.VERIF, "corpus", "C15")
+    still = set()
+    if not os.path.isdir(cdir):
+        return still
+    for fn in sorted(os.listdir(cdir)):
+        if not fn.endswith(".pending"):
+            continue
+        name = fn[:-len(".pending")]
+        lines = [l.strip() for l in open(os.path.join(cdir, fn)) if l.strip()]
+        try:
+            exe = ctx.cc("c15", ["c15.c"], "asan")
+        except core.BuildError:
+            still.add(name)
+            continue
+        rc, out, err = sh2([exe], input=("\n".join(lines) + "\n").encode(), timeout=300,
+                           env={"ASAN_OPTIONS": "detect_leaks=0 abort_on_error=0"})
+        sig, what = parse_asan(err)
+        if not sig:
+            for l in out.decode("utf-8", "replace").split("\n"):
+                if re.match(r"T\d+ (OWN|OWNSOLO)", l):
+                    sig, what = ("errstr-cross-instance" if "cross-instance" in l else "errstr-ownership:asan"), l[:300]
+                    break
+                if re.match(r"T\d+ DIFF", l):
+                    sig, what = "solo-diff:asan", l[:300]
+                    break
+        ctx.count("pending-repro", 1, fn)
+        if not sig:
+            ctx.notes.append("pending finding %s no longer reproduces on this tree (fixed): make it a corpus .txt" % fn)
+            continue
+        still.add(name)
+        listed = any(k["kind"] == "known" and k["sig"] and k["sig"] in sig for k in ctx.known)
+        if listed or os.environ.get("VERIF_C15_REPORT_PENDING"):
+            ctx.violation("deterministic single-thread repro %s: %s" % (fn, what),
+                          {"program": lines, "env": {}, "flavour": "asan", "asan_report": err[-2500:]}, signature=sig)
+        else:
+            ctx.log("pending finding reproduced (%s: %s); not listed in KNOWN_FINDINGS.txt yet, recorded in the evidence only" % (fn, sig))
+            ctx.notes.append("PENDING FINDING reproduced on this tree: %s -> %s (%s); see design/C15.md Findings" % (fn, sig, what))
+    return still
 
 
 ENVS = [{}, {"JSIMD_FORCESSE2": "1"}, {"JSIMD_FORCENONE": "1"}, {"JSIMD_NOHUFFENC": "1"}, {"JSIMD_FORCEAVX2": "1"}]
@@ -221,8 +270,9 @@ def run_program(ctx, exe, flavour, lines, env, tag):
                           dict(replay, line=l), signature="solo-diff:%s:%s" % (flavour, what.group(1) if what else "?"))
             res["ok"] = False
         else:
+            cross = "cross-instance" in l
             ctx.violation("error string/code retrieved for an instance does not belong to that instance's own last failure: " + l[:400],
-                          dict(replay, line=l), signature="errstr-ownership:" + flavour)
+                          dict(replay, line=l), signature="errstr-cross-instance" if cross else "errstr-ownership:" + flavour)
             res["ok"] = False
     return res
 
@@ -402,18 +452,20 @@ def run(ctx):
                 continue
             lines = [l.strip() for l in open(os.path.join(cdir, fn)) if l.strip()]
             run_program(ctx, exe_t, "tsan", lines, {}, "corpus")
+            run_program(ctx, ctx.cc("c15", ["c15.c"], "asan"), "asan", lines, {}, "corpus-asan")
+    avoid = pending_findings(ctx)
     nt = 8
     n_tsan = ctx.n(20, 150)
     for i in range(n_tsan):
         env = ENVS[i % len(ENVS)]
-        lines = gen_program(rng.fork(), nt, ctx.n(30, 60), i % 2 == 1)
+        lines = gen_program(rng.fork(), nt, ctx.n(30, 60), i % 2 == 1, avoid)
         run_program(ctx, exe_t, "tsan", lines, env, "tsan-threads")
         if i == 0:
             ctx.sample({"env": env, "program_head": lines[:12]})
     n_plain = ctx.n(20, 200)
     for i in range(n_plain):
         env = ENVS[i % len(ENVS)]
-        lines = gen_program(rng.fork(), ctx.n(8, 16), ctx.n(80, 160), True)
+        lines = gen_program(rng.fork(), ctx.n(8, 16), ctx.n(80, 160), True, avoid)
         run_program(ctx, exe_s, "simd", lines, env, "simd-threads")
     ctx.cov["rule"] = ("programs of 8 (thorough: up to 16) threads x random operation lists (compress 8/12/16-bit lossy/lossless/progressive/"
                        "arithmetic/optimised/restart, decompress with scaling/pixel formats, transform, YUV encode/decode, failing header parses "
